@@ -995,6 +995,12 @@ func resolveGoCall(path string, call *ast.CallExpr) *ast.BlockStmt {
 
 // wantBool: the callee must return exactly one bool (a guard helper used as `if !h(…) { return }`); otherwise nothing
 func resolveCall(path string, call *ast.CallExpr, wantBool bool) *ast.BlockStmt {
+	return resolveCallEx(path, call, wantBool, nil)
+}
+
+// after != nil: the statements of the caller that follow a `go h(args)`. A parameter the callee assigns is a copy of the
+// argument; renaming it to the argument is still faithful when the caller never mentions that variable again.
+func resolveCallEx(path string, call *ast.CallExpr, wantBool bool, after []ast.Stmt) *ast.BlockStmt {
 	h, ok := call.Fun.(*ast.Ident)
 	if !ok {
 		return nil
@@ -1039,6 +1045,21 @@ func resolveCall(path string, call *ast.CallExpr, wantBool bool) *ast.BlockStmt 
 		}
 		// no local declaration may capture an argument name; parameters are not assigned (they are copies in Go)
 		bad := false
+		deadAfter := func(arg string) bool {
+			if after == nil {
+				return false
+			}
+			dead := true
+			for _, s := range after {
+				ast.Inspect(s, func(n ast.Node) bool {
+					if i, ok := n.(*ast.Ident); ok && i.Name == arg {
+						dead = false
+					}
+					return true
+				})
+			}
+			return dead
+		}
 		isParam := map[string]bool{}
 		for _, pn := range params {
 			isParam[pn] = true
@@ -1047,12 +1068,12 @@ func resolveCall(path string, call *ast.CallExpr, wantBool bool) *ast.BlockStmt 
 			switch y := n.(type) {
 			case *ast.AssignStmt:
 				for _, l := range y.Lhs {
-					if i, ok := l.(*ast.Ident); ok && isParam[i.Name] {
+					if i, ok := l.(*ast.Ident); ok && isParam[i.Name] && !deadAfter(ren[i.Name]) {
 						bad = true
 					}
 				}
 			case *ast.IncDecStmt:
-				if i, ok := y.X.(*ast.Ident); ok && isParam[i.Name] {
+				if i, ok := y.X.(*ast.Ident); ok && isParam[i.Name] && !deadAfter(ren[i.Name]) {
 					bad = true
 				}
 			case *ast.UnaryExpr:
@@ -1163,7 +1184,7 @@ type stWorker struct {
 }
 
 func stage(fd *ast.FuncDecl) string {
-	expandHelpers(currentFile, fd)
+	fd = prepass(currentFile, fd)
 	fn := &stFn{fd: fd, name: fd.Name.Name, chans: map[string]*stChan{}, boundErr: map[string]bool{}, errVars: map[string]bool{},
 		boolVars: map[string]bool{}, valVars: map[string]string{}, closNames: map[string]bool{}, tyMap: map[string]string{}}
 	tps := typeParams(fd)
